@@ -430,6 +430,44 @@ def _alph(tier, seed):
             "variables": list(VARKINDS)}
 
 
+# ------------------------------------------------------------------------------------------------ C02.many_subsystems
+# Added after an independent seeder found a defect of the unchanged tree beyond the original bound: with nine or more subsystems the
+# kept subsystems came out in hash-table order.  Qubit systems with 8..10 (thorough 11) subsystems, subsets chosen so that the
+# complement is small and non-contiguous; oracle = numpy einsum on exact int64 labels (not the mechanism under test).
+MANY_SYS = {8: [[0, 2, 3, 4, 5, 7], [1, 2, 3, 4, 5, 6], [7, 5, 4, 3, 2, 0]],
+            9: [[0, 2, 3, 4, 5, 6, 8], [1, 2, 3, 4, 6, 7, 8], [0, 1, 3, 4, 5, 6, 7], [8, 6, 5, 4, 3, 2, 0]],
+            10: [[0, 2, 3, 4, 5, 6, 7, 9], [1, 2, 3, 4, 5, 6, 7, 8], [0, 1, 2, 4, 5, 6, 7, 8], [9, 7, 6, 5, 4, 3, 2, 0], [2, 3, 4, 5, 6, 7, 8, 9]],
+            11: [[0, 2, 3, 4, 5, 6, 7, 8, 10], [1, 2, 3, 4, 5, 6, 7, 8, 9]]}
+
+
+def many_cases(tier, seed):
+    for n in (8, 9, 10) + ((11,) if tier == "thorough" else ()):
+        for sys_ in MANY_SYS[n]:
+            yield {"n": n, "sys": sys_}
+
+
+def many_check(case):
+    n, sys_ = case["n"], case["sys"]
+    dims = [2] * n
+    N = 2 ** n
+    idx = np.arange(N * N, dtype=np.int64).reshape(N, N)
+    X = (idx * 7919 + 13) % 1000003 + 1
+    kept = [k for k in range(n) if k not in sys_]
+    lo, up = "abcdefghijk", "ABCDEFGHIJK"
+    a = lo[:n]
+    b = "".join(lo[k] if k in sys_ else up[k] for k in range(n))
+    out = "".join(lo[k] for k in kept) + "".join(up[k] for k in kept)
+    exp = np.einsum(f"{a}{b}->{out}", X.reshape(dims + dims)).reshape(2 ** len(kept), 2 ** len(kept))
+    got, exc = run_pt(X.copy(), list(sys_), list(dims))
+    if exc is not None:
+        return viol("partial_trace raised on a many-qubit operator: " + exc_text(exc), site=SITE + ":exception")
+    g = np.asarray(got)
+    if g.shape != exp.shape or not np.array_equal(g.astype(np.int64), exp):
+        return viol(f"partial trace over {sys_} of {n} qubits is not the index contraction (kept subsystems {kept} must stay in their original order)",
+                    site=SITE + ":many_subsystems", observed=small(g), expected=small(exp))
+    return ok(True)
+
+
 CLAUSES = [
     Clause("C02.contraction", contraction_cases, contraction_check, alphabets=_alph,
            doc="partial_trace vs Python multi-index contraction on exact additive labels and numeric dtypes; trace preserved"),
@@ -443,6 +481,8 @@ CLAUSES = [
            doc="Tr_S(kron A_k) = prod Tr(A_k) kron kept A_k on prime-filled factors (object/int64/complex); trace preserved"),
     Clause("C02.composition", composition_cases, composition_check,
            doc="tracing S then T (re-indexed, every listing order) = tracing S u T, for all ordered disjoint splits"),
+    Clause("C02.many_subsystems", many_cases, many_check, chunk=1, weight=2.0, probe=1,
+           doc="8..10 (thorough 11) qubits, non-contiguous kept subsystems: index contraction with the kept subsystems in their original order"),
 ]
 
 # every toqito call of this property is repeated with column-major copies of its array arguments (engine.call, layout twin)
